@@ -76,6 +76,26 @@ M = [
  ("magic-index-forgets-mask", "src/move_generator/magic_table.rs", "let blockers = blockers.0 & entry.mask;", "let blockers = blockers.0;", "violation", ["C11"]),
  ("build-accepts-collisions", "precompile/src/magic/find_magics.rs", "        } else if *table_entry != moves {\n            // Having two different move sets in the same slot is a hash collision\n            return Err(TableFillError);\n        }", "        }", "violation", ["C11"]),
  ("king-table-wraps", "src/move_generator/targets.rs", "        *targets |= (king << 1) & !Bitboard::A_FILE; // east", "        *targets |= king << 1; // east", "violation", ["C11"]),
+ # ---- search (C07) and repetition (C17)
+ ("search-forgets-toggle-back", "src/alpha_beta_searcher/mod.rs", "            chess_move.undo(board).unwrap();\n            board.toggle_turn();\n\n            alpha = max(alpha, value);", "            chess_move.undo(board).unwrap();\n\n            alpha = max(alpha, value);", "violation", ["C07"]),
+ ("search-forgets-undo-min", "src/alpha_beta_searcher/mod.rs", "            chess_move.undo(board).unwrap();\n            board.toggle_turn();\n\n            beta = min(beta, value);", "            board.toggle_turn();\n\n            beta = min(beta, value);", "violation", ["C07"]),
+ ("search-depth-guard-off-by-one", "src/alpha_beta_searcher/mod.rs", "    if context.search_depth() < 1 {", "    if context.search_depth() < 2 {", "violation", ["C07"]),
+ ("search-empty-guard-removed", "src/alpha_beta_searcher/mod.rs", "    if candidates.is_empty() {\n        return Err(SearchError::NoAvailableMoves);\n    }\n", "", "violation", ["C07"]),
+ ("search-leaf-at-depth-one", "src/alpha_beta_searcher/mod.rs", "    if depth == 0 {\n        let score = evaluate::score", "    if depth <= 1 {\n        let score = evaluate::score", "ok", ["C07"]),
+ ("search-recursion-underflow", "src/alpha_beta_searcher/mod.rs", "                    depth - 1,\n                    alpha,\n                    beta,\n                    false,", "                    depth - 2,\n                    alpha,\n                    beta,\n                    false,", "violation", ["C07"]),
+ ("search-returns-unsearched-move", "src/alpha_beta_searcher/mod.rs", "        (score, chess_move.clone())\n", "        (score, candidates[0].clone())\n", "ok", ["C07"]),
+ ("benign-search-toggle-before-undo", "src/alpha_beta_searcher/mod.rs", "            chess_move.undo(board).unwrap();\n            board.toggle_turn();\n\n            alpha = max(alpha, value);", "            board.toggle_turn();\n            chess_move.undo(board).unwrap();\n\n            alpha = max(alpha, value);", "ok", ["C07"]),
+ ("benign-search-depth-eq-zero", "src/alpha_beta_searcher/mod.rs", "    if context.search_depth() < 1 {", "    if context.search_depth() == 0 {", "ok", ["C07"]),
+ ("benign-search-guard-after-sort", "src/alpha_beta_searcher/mod.rs", "    if candidates.is_empty() {\n        return Err(SearchError::NoAvailableMoves);\n    }\n    sort_chess_moves(&mut candidates, &board);\n", "    sort_chess_moves(&mut candidates, &board);\n    if candidates.is_empty() {\n        return Err(SearchError::NoAvailableMoves);\n    }\n", "ok", ["C07"]),
+ ("benign-search-turn-read-earlier", "src/alpha_beta_searcher/mod.rs", "    {\n        let mut count = context.searched_position_count.write().unwrap();\n        *count += 1;\n    }\n\n    let current_turn = board.turn();\n", "    let current_turn = board.turn();\n    {\n        let mut count = context.searched_position_count.write().unwrap();\n        *count += 1;\n    }\n\n", "ok", ["C07"]),
+ ("benign-search-local-depth-first", "src/alpha_beta_searcher/mod.rs", "        let mut local_board = board.clone();\n        let mut local_move_generator = MoveGenerator::new();\n        let mut local_context = context.clone();\n        let local_depth = context.search_depth();\n", "        let local_depth = context.search_depth();\n        let mut local_board = board.clone();\n        let mut local_context = context.clone();\n        let mut local_move_generator = MoveGenerator::new();\n", "ok", ["C07"]),
+ ("benign-search-rename-value", "src/alpha_beta_searcher/mod.rs", "re:\\bcandidates\\b", "legal_moves", "ok", ["C07"]),
+ ("repetition-key-drops-turn", "src/board/position_info.rs", "        let key = (self.current_position_hash, turn as u8);\n        self.position_count\n            .entry(key)\n            .and_modify(|count| *count += 1)", "        let key = (self.current_position_hash, 0u8);\n        self.position_count\n            .entry(key)\n            .and_modify(|count| *count += 1)", "violation", ["C17"]),
+ ("repetition-uncount-keeps-stack", "src/board/position_info.rs", "        self.max_seen_position_count_stack.pop();\n", "", "violation", ["C17"]),
+ ("repetition-count-starts-at-zero", "src/board/position_info.rs", "            .or_insert(1);", "            .or_insert(0);", "violation", ["C17"]),
+ ("repetition-board-passes-other-turn", "src/board/mod.rs", "        self.position_info.count_current_position(self.turn)", "        self.position_info.count_current_position(self.turn.opposite())", "violation", ["C17"]),
+ ("benign-repetition-get-copied", "src/board/position_info.rs", "        let count = *self.position_count.get(&key).unwrap();\n        self.max_seen_position_count_stack.push(count);\n        count", "        let count = *self.position_count.get(&key).unwrap();\n        let reported = count;\n        self.max_seen_position_count_stack.push(reported);\n        reported", "ok", ["C17"]),
+ ("game-forgets-history", "src/game/game.rs", "            Ok(_capture) => {\n                self.save_move(chess_move.clone());\n                Ok(())", "            Ok(_capture) => {\n                Ok(())", "violation", ["C17"]),
  # ---- evaluation (C18 C16)
  ("black-uses-white-index", "src/evaluate/mod.rs", "        Color::Black => SQUARE_TO_BLACK_BONUS_INDEX,", "        Color::Black => SQUARE_TO_WHITE_BONUS_INDEX,", "violation", ["C18"]),
  ("mate-score-ignores-depth-sign", "src/evaluate/mod.rs", "                BLACK_WINS - remaining_depth as i16", "                BLACK_WINS + remaining_depth as i16", "violation", ["C18"]),
